@@ -45,6 +45,22 @@ type badChanList struct {
 	Z int32
 }
 
+func c13AccountOK() interface{} {
+	type Account struct {
+		Name string
+		N    int32
+	}
+	return &Account{Name: "first", N: 1}
+}
+
+func c13AccountHidden() interface{} {
+	type Account struct {
+		Name string
+		hits int32
+	}
+	return &Account{Name: "second", hits: 2}
+}
+
 type badViews struct {
 	Preview *[]interface{}
 	All     *[]interface{}
@@ -123,6 +139,7 @@ var unsupportedKinds = []string{"named uintptr", "named chan", "named func", "na
 	"*struct{first field: struct{chan}}", "instance of the 17th class{chan}", "int in [2^31, 2^32)", "[]int{.., in [2^31, 2^32)}", "struct{int in [-2^32, -2^31)}",
 	"anonymous struct{chan}", "*anonymous struct{func}", "[]interface{}{anonymous struct{complex}}",
 	"[]interface{}{*prefix, *whole with a chan in the tail}", "struct{*prefix, *whole with a func in the tail}",
+	"second of two types of one class name{unexported field}",
 	"struct{unexported field}", "*struct{sync.Mutex}", "struct{*struct{unexported field}}", "all-zero struct{chan}",
 	"struct{Évent chan}", "struct{Ωmega func; Ärger complex128}", "struct{time.Time; chan}", "*struct{struct{time.Time; chan}}",
 	"int beyond 32 bits", "negative int beyond 32 bits", "[]int{.., beyond 32 bits, ..}", "map[string]int{beyond 32 bits}", "struct{int beyond 32 bits}"}
@@ -236,6 +253,9 @@ func unsupportedValue(kind string) interface{} {
 		all := []interface{}{int32(1), "two", int32(3), func() {}}
 		preview := all[:1]
 		return &badViews{Preview: &preview, All: &all, N: 3}
+	case "second of two types of one class name{unexported field}":
+		// (two packages' Account, two scopes' Account: one class name, two Go types)
+		return []interface{}{c13AccountOK(), c13AccountHidden()}
 	case "struct{unexported field}":
 		// what sits in an unexported field cannot be read, let alone represented
 		return badHidden{A: 1, hits: 3, B: "b"}
